@@ -34,7 +34,7 @@ def plan(tier, seed):
     specs = []
     if tier == 'quick':
         for i in range(8):
-            specs.append({'kind': 'templates', 'seed': seed, 'part': i, 'parts': 8, 'words': [2], 'stride': 2})
+            specs.append({'kind': 'templates', 'seed': seed, 'part': i, 'parts': 8, 'words': [2], 'stride': 1})
         for s in common.shard_seeds(seed, 8):
             specs.append({'kind': 'gen', 'seed': s, 'count': 6, 'words': [2]})
     else:
